@@ -119,7 +119,11 @@ class Explorer:
                 raise
             except Unmodelled:
                 out = ('unmodelled', None)
+            except Sent as sn:
+                out = ('ret', sn.payload)
             except Exception as ex:       # noqa - every exception class the library may raise is a leaf
+                if 'Sym' in str(ex) and type(ex).__name__ in ('TypeError', 'AttributeError'):
+                    raise Refuse('a C-level operation met a symbolic value: %s' % ex)
                 out = ('raise', type(ex))
             leaves.append(([(a, b) for a, b in self.trace], out))
             if len(leaves) > MAX_PATHS:
@@ -354,7 +358,23 @@ class SymQuot:
         return SymInt(E('fdiv', (self.a, self.k), 'Z'))
 
     def __float__(self):
+        if _in_percent_formatting():
+            return 0.0
         raise Refuse('float value of a quotient')
+
+    def micro(self):
+        """observer's view of a duration a / k seconds: the number of microseconds it denotes (k divides 10^6)"""
+        if 1000000 % self.k:
+            raise Refuse('a quotient that is not a whole number of microseconds')
+        return SymInt(E('mul', (self.a, 1000000 // self.k), 'Z'))
+
+    def __format__(self, spec):
+        return '<sym>'
+
+    def __repr__(self):
+        return '<sym>'
+
+    __str__ = __repr__
 
     def __lt__(self, o): raise Refuse('comparison of a float quotient')
     __le__ = __gt__ = __ge__ = __eq__ = __ne__ = __lt__
@@ -380,6 +400,8 @@ class SymBytes:
             return SymBytes(self.segs + o.segs)
         if isinstance(o, (bytes, bytearray)):
             return SymBytes(self.segs + [('lit', bytes(o))])
+        if isinstance(o, SymSeq):
+            return SymBytes(self.segs + [('seq', o)])
         return NotImplemented
 
     def __radd__(self, o):
@@ -394,6 +416,8 @@ class SymBytes:
                 n = len(s[1])
             elif s[0] == 'be':
                 n = s[1] if isinstance(s[1], int) else SymInt(s[1])
+            elif s[0] == 'seq':
+                n = s[1].sym_len()
             else:
                 n = SymInt(E('len', (s[1],), 'Z'))
             total = total + n
@@ -429,9 +453,112 @@ class SymBytes:
             elif s[0] == 'be':
                 n = ('%d%%nat' % s[1]) if isinstance(s[1], int) else '(Z.to_nat %s)' % coq(s[1])
                 parts.append('(be_enc %s %s)' % (n, coq(s[2])))
+            elif s[0] == 'seq':
+                parts.append(s[1].coq())
             else:
                 parts.append(coq(s[1]))
         return '(' + ' ++ '.join(parts) + ')' if parts else '[]'
+
+
+class SymSeq:
+    """received bytes: a known number of leading elements (int or SymInt each) and, optionally, an opaque tail of unknown length"""
+
+    def __init__(self, elems, tail=None):
+        self.elems, self.tail = list(elems), tail
+
+    def sym_len(self):
+        n = _real_len(self.elems)
+        return n if self.tail is None else n + SymInt(E('len', (self.tail,), 'Z'))
+
+    def __len__(self):
+        if self.tail is None:
+            return _real_len(self.elems)
+        raise Refuse('len() of received bytes of unknown length outside a patched module')
+
+    def __iter__(self):
+        if self.tail is None:
+            return iter(self.elems)
+        raise Unmodelled('iteration over received bytes of unknown length')
+
+    def __getitem__(self, i):
+        n = _real_len(self.elems)
+        if _real_isinstance(i, slice):
+            if i.step is not None:
+                raise Refuse('slice with a step')
+            a, b = i.start, i.stop
+            if _real_isinstance(a, SymInt) or _real_isinstance(b, SymInt):
+                raise Refuse('slice of received bytes at a symbolic position')
+            if self.tail is None:
+                return SymSeq(self.elems[a:b])
+            a = 0 if a is None else a
+            if a < 0 or (b is not None and b < 0):
+                raise Refuse('slice from the end of received bytes of unknown length')
+            if b is None:
+                if a > n:
+                    raise Unmodelled('slice starting inside the opaque tail')
+                return SymSeq(self.elems[a:], self.tail)
+            if b <= n:
+                return SymSeq(self.elems[a:b])
+            raise Unmodelled('slice ending inside the opaque tail')
+        if _real_isinstance(i, SymInt):
+            raise Refuse('received bytes indexed at a symbolic position')
+        if self.tail is None:
+            return self.elems[i]
+        if 0 <= i < n:
+            return self.elems[i]
+        raise Unmodelled('index into the opaque tail')
+
+    def __add__(self, o):
+        if _real_isinstance(o, SymSeq) and self.tail is None:
+            return SymSeq(self.elems + o.elems, o.tail)
+        if _real_isinstance(o, (bytes, bytearray)) and self.tail is None:
+            return SymSeq(self.elems + list(o))
+        raise Unmodelled('concatenation after an opaque tail')
+
+    def __radd__(self, o):
+        if _real_isinstance(o, (bytes, bytearray)):
+            return SymSeq(list(o) + self.elems, self.tail)
+        return NotImplemented
+
+    def __eq__(self, o):
+        if _real_isinstance(o, (bytes, bytearray)):
+            o = SymSeq(list(o))
+        if not _real_isinstance(o, SymSeq):
+            return False
+        if self.tail is not None or o.tail is not None:
+            raise Unmodelled('comparison of received bytes of unknown length')
+        if _real_len(self.elems) != _real_len(o.elems):
+            return False
+        for x, y in zip(self.elems, o.elems):
+            if x != y:
+                return False
+        return True
+
+    def __ne__(self, o):
+        return not self.__eq__(o)
+
+    def __bool__(self):
+        n = self.sym_len()
+        return bool(n != 0) if _real_isinstance(n, SymInt) else n != 0
+
+    def __hash__(self):
+        raise Refuse('hash of received bytes')
+
+    def __repr__(self):
+        return '<symseq>'
+
+    def coq(self):
+        items = [coq(x.e) if _real_isinstance(x, SymInt) else zc(x) for x in self.elems]
+        if self.tail is None:
+            return '[' + '; '.join(items) + ']'
+        return '(' + ' :: '.join(items + [coq(self.tail)]) + ')'
+
+
+class Sent(BaseException):
+    """raised by the stand-in for Client.send_request: the request the method built"""
+
+    def __init__(self, payload):
+        self.payload = payload
 
 
 class SymDict(dict):
@@ -470,13 +597,13 @@ def sym_isinstance(obj, cls):
     cs = tuple(int if c is sym_int else c for c in cs)
     if _real_isinstance(obj, SymInt):
         return any(c is int or c is object for c in cs)
-    if _real_isinstance(obj, SymBytes):
+    if _real_isinstance(obj, (SymBytes, SymSeq)):
         return any(c is bytes or c is object for c in cs)
     return _real_isinstance(obj, cs)
 
 
 def sym_len(x):
-    if _real_isinstance(x, SymBytes):
+    if _real_isinstance(x, (SymBytes, SymSeq)):
         return x.sym_len()
     return _real_len(x)
 
@@ -511,11 +638,35 @@ def sym_pack(fmt, *vals):
 
 
 _struct_pack = _struct.pack
+_struct_unpack = _struct.unpack
+
+
+def sym_unpack(fmt, data):
+    if not _real_isinstance(data, SymSeq):
+        return _struct_unpack(fmt, data)
+    f = fmt.lstrip('>!')
+    if fmt[:1] in '<=@' and any(_FMT.get(c, 0) > 1 for c in f):
+        raise Refuse('struct.unpack(%r): byte order' % fmt)
+    if any(c not in _FMT for c in f):
+        raise Refuse('struct.unpack(%r): format not supported with symbolic bytes' % fmt)
+    if data.tail is not None:
+        raise Unmodelled('struct.unpack of bytes of unknown length')
+    if _real_len(data.elems) != sum(_FMT[c] for c in f):
+        raise _struct.error('unpack requires a buffer of %d bytes' % sum(_FMT[c] for c in f))
+    out, pos = [], 0
+    for c in f:
+        v = None
+        for b in data.elems[pos:pos + _FMT[c]]:
+            v = b if v is None else v * 256 + b
+        out.append(v)
+        pos += _FMT[c]
+    return tuple(out)
 
 
 def install(pkg_modules):
     """symbolic-aware names in the namespace of every module of the package; class-level integer-keyed dicts become SymDicts"""
     _struct.pack = sym_pack
+    _struct.unpack = sym_unpack
     for m in pkg_modules:
         m.isinstance = sym_isinstance
         m.len = sym_len
@@ -551,7 +702,7 @@ def force(v, ty):
         if _real_isinstance(v, SymBool):
             return bool(v)
         return v
-    if ty in ('Z', 'Y'):
+    if ty in ('Z', 'Y', 'S'):
         return v
     if ty[0] == 'opt':
         return None if v is None else force(v, ty[1])
@@ -575,11 +726,19 @@ def render_value(v, ty):
             raise Refuse('result is not a boolean: %r' % (v,))
         return 'true' if v else 'false'
     if ty == 'Y':
-        if _real_isinstance(v, SymBytes):
+        if _real_isinstance(v, (SymBytes, SymSeq)):
             return v.coq()
         if _real_isinstance(v, (bytes, bytearray)):
             return '[' + '; '.join(str(b) for b in v) + ']'
         raise Refuse('result is not a byte string: %r' % (v,))
+    if ty == 'S':
+        parts = []
+        for it in v:
+            if _real_isinstance(it, tuple) and it[0] == 'bytes':
+                parts.append('enc_bytes %s' % render_value(it[1] if it[1] is not None else b'', 'Y'))
+            else:
+                parts.append('[%s]' % render_value(it, 'Z'))
+        return '(' + ' ++ '.join(parts) + ')' if parts else '[]'
     if ty[0] == 'opt':
         return 'None' if v is None else '(Some %s)' % render_value(v, ty[1])
     if ty[0] == 'tuple':
@@ -595,6 +754,10 @@ def coq_type(ty):
     if ty == 'B':
         return 'bool'
     if ty == 'Y':
+        return 'bytes'
+    if ty == 'S':
+        return '(list Z)'
+    if ty[0] == 'seq':
         return 'bytes'
     if ty[0] == 'opt':
         return '(option %s)' % coq_type(ty[1])
@@ -653,6 +816,25 @@ def translate(spec):
             return cases(i + 1, actual + [SymBytes([('var', E('var', (n,), 'Y'))])])
         if ty == 'B':
             return 'if %s\n%sthen %s\n%selse %s' % (n, pad, cases(i + 1, actual + [True]), pad, cases(i + 1, actual + [False]))
+        if _real_isinstance(ty, tuple) and ty[0] == 'seq':
+            K, minlen = ty[1], ty[2]
+            arms = []
+            for ln in range(0, K + 1):
+                names = ['%s_%d' % (n, j) for j in range(ln)]
+                if ln < K:
+                    pat = '[' + '; '.join(names) + ']'
+                    val = SymSeq([SymInt(E('var', (x,), 'Z')) for x in names])
+                else:
+                    pat = ' :: '.join(names + ['%s_rest' % n])
+                    val = SymSeq([SymInt(E('var', (x,), 'Z')) for x in names], E('var', ('%s_rest' % n,), 'Y'))
+                if ln < minlen:
+                    arms.append('%s| %s => fail EOutOfFuel (* shorter than anything the translated function is given *)' % (pad, pat))
+                else:
+                    arms.append('%s| %s => %s' % (pad, pat, cases(i + 1, actual + [val])))
+            return 'match %s with\n%s\n%send' % (n, '\n'.join(arms), pad)
+        if ty == ('opt', 'Y'):
+            return 'match %s with\n%s| Some %s_v => %s\n%s| None => %s\n%send' % (
+                n, pad, n, cases(i + 1, actual + [SymBytes([('var', E('var', (n + '_v',), 'Y'))])]), pad, cases(i + 1, actual + [None]), pad)
         if ty == ('opt', 'Z'):
             return 'match %s with\n%s| Some %s_v => %s\n%s| None => %s\n%send' % (
                 n, pad, n, cases(i + 1, actual + [SymInt(E('var', (n + '_v',), 'Z'))]), pad, cases(i + 1, actual + [None]), pad)
@@ -684,6 +866,7 @@ def main():
     import udsoncan.services             # noqa
     mods = [m for n, m in sys.modules.items() if n.startswith('udsoncan') and isinstance(m, types.ModuleType)]
     install(mods)
+    sys.modules.setdefault('symtrans', sys.modules['__main__'])      # symspecs refers to the classes of THIS module
     import symspecs
     files = {}
     report = []
